@@ -129,21 +129,27 @@ class MechAdapter(Adapter):
         return self.obj.parameters(), self.obj.n_parameters(), self.obj.n_fixed_parameters()
 
     def evals(self, free):
-        self.obj.enable_sensitivities(False)
-        v = self.obj.simulate(free, self.times)
-        self._seen = np.array(self.inner.last_parameters, float)
-        out = {'value': v}
+        self.flip = not getattr(self, 'flip', False)
+        out = {}
         try:
-            self.obj.enable_sensitivities(True)
+            if not self.obj.has_sensitivities():
+                self.obj.enable_sensitivities(True)
             v2, s = self.obj.simulate(free, self.times)
             out['S1score'] = v2
             out['grad'] = s
-        except ValueError as e:
+        except ValueError:
             out['grad'] = 'err:valueError'
-        finally:
+        try:
+            self.obj.enable_sensitivities(False)
+        except Exception:
+            pass
+        out['value'] = self.obj.simulate(free, self.times)
+        self._seen = np.array(self.inner.last_parameters, float)
+        if self.flip:
+            # leave the sensitivities switched on for the next fix / release call
             try:
-                self.obj.enable_sensitivities(False)
-            except Exception:
+                self.obj.enable_sensitivities(True)
+            except ValueError:
                 pass
         return out
 
@@ -253,13 +259,29 @@ class LLAdapter(Adapter):
 
     def evals(self, free):
         o = self.obj
-        out = {'value': o(free), 'pointwise': o.compute_pointwise_ll(free)}
-        try:
-            sc, g = o.evaluateS1(free)
-            out['S1score'] = sc
-            out['grad'] = g
-        except ValueError:
-            out['grad'] = 'err:valueError'
+        out = {}
+        # the order of the evaluation kinds varies: evaluateS1 leaves the sensitivities of the
+        # mechanistic model switched on, a plain call switches them off — both states must be
+        # followed by fix / release calls
+        self.flip = not getattr(self, 'flip', False)
+        def s1():
+            if isinstance(out.get('grad'), str):
+                return      # keep the first failure
+            try:
+                sc, g = o.evaluateS1(free)
+                out['S1score'] = sc
+                out['grad'] = g
+            except ValueError:
+                out['grad'] = 'err:valueError'
+        if self.flip:
+            out['value'] = o(free)
+            out['pointwise'] = o.compute_pointwise_ll(free)
+            s1()
+        else:
+            s1()
+            out['value'] = o(free)
+            out['pointwise'] = o.compute_pointwise_ll(free)
+            s1()
         return out
 
     def ref_evals(self, full, mask):
